@@ -1015,6 +1015,11 @@ def _preview(ctx) -> None:
             if t[0] == "ifexp":
                 leaves_of(t[2])
                 leaves_of(t[3])
+            elif t[0] == "call" and t[1] == ("name", "getattr") and len(t[2]) == 3 and not t[3] and t[2][1][0] == "const" \
+                    and isinstance(t[2][1][2], str):
+                # getattr(x, 'name', default)  ==  x.name if hasattr(x, 'name') else default
+                leaves_.append(("attr", t[2][0], t[2][1][2]))
+                leaves_of(t[2][2])
             else:
                 leaves_.append(t)
         leaves_of(a)
@@ -1200,6 +1205,6 @@ MUTANTS = [
     dict(id="twin-header-guard-stronger-at-use", module=_D, twin=True,
          old="	if v._name:\n		lines.append(header_text", new="	if v._name and len(formatted) >= 0:\n		lines.append(header_text"),
     dict(id="twin-finite-nested-if", module=_D, twin=True,
-         old="			out.append(f\"{v:.1f}\" if math.isfinite(v) and v == int(v) else f\"{v:g}\")",
-         new="			if math.isfinite(v) and v == int(v):\n				out.append(f\"{v:.1f}\")\n			else:\n				out.append(f\"{v:g}\")"),
+         old="				out.append(f\"{v:.1f}\" if math.isfinite(v) and v == int(v) else f\"{v:g}\")",
+         new="				if math.isfinite(v) and v == int(v):\n					out.append(f\"{v:.1f}\")\n				else:\n					out.append(f\"{v:g}\")"),
 ]
